@@ -239,7 +239,8 @@ def run(ctx):
                                _cfg("loca", salt, glyphs=ctx.pick(4, 5), invs=["LocaLayout"]), 2, 900)
     gens = [
         ("simple-1run", _cfg("simple", salt, runs=1, with256=True), None, None, 1000),
-        ("simple-sim", _cfg("simple", salt, runs=ctx.pick(4, 6), with256=True), ctx.pick(40, 400), 12, 100),
+        ("simple-sim", _cfg("simple", salt, runs=ctx.pick(4, 6), with256=False), ctx.pick(60, 600), 12, 100),
+        ("simple-sim256", _cfg("simple", salt, runs=ctx.pick(3, 4), with256=True), ctx.pick(12, 120), 12, 50),
         ("comp-2", _cfg("comp", salt, comps=2), None, None, 500),
         ("comp-3", _cfg("comp", salt, comps=3, full=False), None, None, 500),
         ("set-2", _cfg("set", salt, glyphs=2), None, None, 300),
